@@ -659,3 +659,67 @@ func layout(b *bytes.Buffer, j JV, indent, level int) {
 		b.WriteString(j.Raw)
 	}
 }
+
+// RenderJSON writes a value tree as compact JSON in pair order. It is the
+// harness's own deterministic serializer, used inside generators so that a
+// generated case never depends on the library's (random) object order.
+func RenderJSON(v V) string {
+	var sb strings.Builder
+	renderJSON(&sb, v)
+	return sb.String()
+}
+
+func renderJSONString(sb *strings.Builder, s string) {
+	sb.WriteByte('"')
+	for _, r := range s {
+		switch {
+		case r == '"' || r == '\\':
+			sb.WriteByte('\\')
+			sb.WriteRune(r)
+		case r < 0x20:
+			fmt.Fprintf(sb, `\u%04x`, r)
+		default:
+			sb.WriteRune(r)
+		}
+	}
+	sb.WriteByte('"')
+}
+
+func renderJSON(sb *strings.Builder, v V) {
+	switch v.K {
+	case KNil:
+		sb.WriteString("null")
+	case KBool:
+		sb.WriteString(strconv.FormatBool(v.B))
+	case KInt:
+		sb.WriteString(strconv.FormatInt(v.I, 10))
+	case KFloat:
+		s := strconv.FormatFloat(v.Float(), 'g', -1, 64)
+		if !strings.ContainsAny(s, ".e") {
+			s += ".0"
+		}
+		sb.WriteString(s)
+	case KString:
+		renderJSONString(sb, v.S)
+	case KList:
+		sb.WriteByte('[')
+		for i, e := range v.L {
+			if i > 0 {
+				sb.WriteByte(',')
+			}
+			renderJSON(sb, e)
+		}
+		sb.WriteByte(']')
+	case KObject:
+		sb.WriteByte('{')
+		for i, p := range v.O {
+			if i > 0 {
+				sb.WriteByte(',')
+			}
+			renderJSONString(sb, p.K)
+			sb.WriteByte(':')
+			renderJSON(sb, p.V)
+		}
+		sb.WriteByte('}')
+	}
+}
